@@ -18,16 +18,14 @@ class Oracle:
         self.override = None      # object with random()/randrange(n) giving scripted concrete draws
         self.tape = None          # when a list: every draw is appended (record) ...
         self.replay = None        # ... when a list: draws are taken from it (same random-generator state for a second run)
+        self.replay_mismatch = False
 
     # ---- core draws
     def random(self):
         if self.replay is not None:
-            if not self.replay:
-                raise Unsupported('replayed run drew more random numbers than the recorded one')
-            kind, v = self.replay.pop(0)
-            if kind != 'random':
-                raise Unsupported('replayed run drew a %s where the recorded one drew %s' % ('random', kind))
-            return v
+            if self.replay and self.replay[0][0] == 'random':
+                return self.replay.pop(0)[1]
+            self.replay_mismatch = True       # the replayed run consumes randomness differently: fall through to a fresh draw
         if self.override is not None:
             v = self.override.random()
             self.log.append(('random*', v))
@@ -50,12 +48,9 @@ class Oracle:
     def _index(self, n, kind='rr'):
         n = int(n)
         if self.replay is not None:
-            if not self.replay:
-                raise Unsupported('replayed run drew more random numbers than the recorded one')
-            k2, v = self.replay.pop(0)
-            if k2 != 'index':
-                raise Unsupported('replayed run drew an index where the recorded one drew %s' % k2)
-            return v
+            if self.replay and self.replay[0][0] == 'index' and 0 <= self.replay[0][1] < n:
+                return self.replay.pop(0)[1]
+            self.replay_mismatch = True
         if self.override is not None:
             v = self.override.randrange(n)
             self.log.append((kind + '*', v))
